@@ -20,6 +20,7 @@ import (
 	"math"
 	"math/big"
 	"os"
+	"path/filepath"
 	"regexp"
 	"sort"
 	"strings"
@@ -636,6 +637,9 @@ func c19OverMargins(margins []int, all bool, check func(m int) *c19Obs) *c19Obs 
 	)
 	for _, m := range margins {
 		if o := check(m); o != nil {
+			if !all && c19SkipMargin != nil && c19SkipMargin(o) {
+				continue // composite case: an instance of a listed construct at this margin only
+			}
 			if first == nil {
 				first = o
 			}
@@ -662,6 +666,10 @@ func c19IsIndentOverflow(c *lib.Ctx, o *c19Obs) bool {
 	return o != nil && o.Aspect == "unreadable" && c19IndentOverflowRe.MatchString(o.Observed) &&
 		c.Findings.Listed("C19", "pp cell=let-nested#0 ")
 }
+
+// c19SkipMargin is set by runC19 (composite cases: the indentation overflow of one margin does not
+// end the case, the other margins are still checked).
+var c19SkipMargin func(o *c19Obs) bool
 
 // c19Listify turns the function objects the reader builds for 'x, #'f and `x (cl.Quote …) back
 // into lists, so that a form built as a list and the same form read from text compare equal.
@@ -991,10 +999,6 @@ func c19RunValues(c *lib.Ctx, cases []c19ValCase, allMargins bool) {
 				fmt.Fprintln(os.Stderr, "c19:", obs.Observed)
 				os.Exit(2)
 			}
-			if !cs.sweep && c19IsIndentOverflow(c, obs) {
-				c.Ev.Count("composite_indent_overflow_instances", 1)
-				continue
-			}
 			c.Report(c19ValueSignature(cs, c19AspectM(obs, cs.sweep)), cs.sweep, c19ValueReplay(cs, obs, modelForm))
 		}
 	}
@@ -1240,10 +1244,6 @@ func c19RunPP(c *lib.Ctx, cases []c19PPCase, allMargins bool) {
 			fmt.Fprintln(os.Stderr, "c19:", o.Observed)
 			os.Exit(2)
 		}
-		if !cs.sweep && c19IsIndentOverflow(c, o) {
-			c.Ev.Count("composite_indent_overflow_instances", 1)
-			continue
-		}
 		sig := fmt.Sprintf("pp head=%s aspect=%s", cs.Head, o.Aspect)
 		if cs.sweep {
 			sig = fmt.Sprintf("pp cell=%s#%d aspect=%s", cs.Head, c19PPIndex(cs.Src), c19AspectM(o, true))
@@ -1286,17 +1286,25 @@ func runC19(c *lib.Ctx) {
 			(container == "hash-table" && c.Findings.Listed("C19", "value cell=hash-value/"+elem+" ")) ||
 			(container == "list" && c.Findings.Listed("C19", "value cell=list-head/"+elem+" "))
 	}
+	c19SkipMargin = func(o *c19Obs) bool {
+		if c19IsIndentOverflow(c, o) {
+			c.Ev.Count("composite_indent_overflow_margins_skipped", 1)
+			c.Ev.Hist("indent_overflow_margin", fmt.Sprint(o.Margin/10*10))
+			return true
+		}
+		return false
+	}
 	listedV := func(cell string) bool { return c.Findings.Listed("C19", "value cell="+cell+" ") }
 	gctx := c19GenCtx{avoid: avoid, noEmptyVec: listedV("top/empty-vector"),
 		quotedNoHash: listedV("vector/hash-table") || listedV("array/hash-table"),
 		quotedNoFix:  listedV("vector/fixed-vector") || listedV("array/fixed-vector")}
 	// leg A
 	vcases := c19ValueSweep()
-	nRandom := c.Scale(600, 6000)
+	nRandom := c.Scale(1000, 20000)
 	for i := 0; i < nRandom; i++ {
 		var v *c19Val
 		for {
-			v = c19RandVal(c.Rng, 1+c.Rng.Intn(4), gctx)
+			v = c19RandVal(c.Rng, []int{1, 1, 1, 1, 2, 2, 2, 3, 3, 4}[c.Rng.Intn(10)], gctx)
 			// a composite case is a container; its kind at top level must not be a listed cell either
 			if v.depth() >= 1 && !c.Findings.Listed("C19", "value cell=top/"+v.kindLabel()+" ") {
 				break
@@ -1310,7 +1318,7 @@ func runC19(c *lib.Ctx) {
 	for _, s := range c19PPSweep {
 		pcases = append(pcases, c19PPCase{Head: s.head, Src: s.src, sweep: true})
 	}
-	nCode := c.Scale(400, 4000)
+	nCode := c.Scale(600, 12000)
 	for i := 0; i < nCode; i++ {
 		if c.Rng.Chance(50) {
 			h, src := c19RandDef(c.Rng, c.Findings.Listed("C19", "pp cell=defun-doc-long#0 "))
@@ -1319,7 +1327,7 @@ func runC19(c *lib.Ctx) {
 			}
 			pcases = append(pcases, c19PPCase{Head: h, Src: src})
 		} else {
-			pcases = append(pcases, c19PPCase{Head: "code", Src: c19RandCode(c.Rng, 2+c.Rng.Intn(3))})
+			pcases = append(pcases, c19PPCase{Head: "code", Src: c19RandCode(c.Rng, 1+c.Rng.Intn(3))})
 		}
 	}
 	c19RunPP(c, pcases, false)
@@ -1348,9 +1356,13 @@ func runC19(c *lib.Ctx) {
 
 func c19Replay(c *lib.Ctx) {
 	var rec map[string]any
-	if err := lib.ReadJSON(c.Replay, &rec); err != nil {
-		fmt.Println("cannot read replay file:", err)
-		return
+	path := c.Replay
+	if _, err := os.Stat(path); err != nil && !filepath.IsAbs(path) {
+		path = filepath.Join(c.Root, path) // the harness runs in its own directory
+	}
+	if err := lib.ReadJSON(path, &rec); err != nil {
+		fmt.Fprintln(os.Stderr, "cannot read replay file:", err)
+		os.Exit(2)
 	}
 	leg, _ := rec["leg"].(string)
 	sweep, _ := rec["sweep"].(bool)
